@@ -42,6 +42,35 @@ fn rust_str(s: &str) -> String {
     o
 }
 
+/// the value of a Rust numeric literal as written in an attribute (sign, digit separators, radix
+/// prefixes, type suffixes)
+pub fn rust_number(text: &str) -> Option<f64> {
+    let t = text.trim().replace('_', "");
+    let (neg, t) = match t.strip_prefix('-') {
+        Some(r) => (true, r.to_string()),
+        None => (false, t),
+    };
+    let mut body = t.clone();
+    for suf in ["usize", "isize", "u128", "i128", "u64", "i64", "u32", "i32", "u16", "i16", "u8", "i8", "f64", "f32"] {
+        if let Some(b) = t.strip_suffix(suf) {
+            if !b.is_empty() && !(b.starts_with("0x") && suf.starts_with('f')) {
+                body = b.to_string();
+                break;
+            }
+        }
+    }
+    let v = if let Some(h) = body.strip_prefix("0x") {
+        u128::from_str_radix(h, 16).ok()? as f64
+    } else if let Some(o) = body.strip_prefix("0o") {
+        u128::from_str_radix(o, 8).ok()? as f64
+    } else if let Some(b) = body.strip_prefix("0b") {
+        u128::from_str_radix(b, 2).ok()? as f64
+    } else {
+        body.parse::<f64>().ok()?
+    };
+    Some(if neg { -v } else { v })
+}
+
 impl Validator {
     fn to_rust(&self) -> String {
         // a validator the tool does not translate, written out verbatim: "raw:<text>"
@@ -65,7 +94,7 @@ impl Validator {
         }
     }
     fn expected(&self) -> Vec<(String, Option<f64>, Option<String>)> {
-        let num = |s: &String| s.replace('_', "").parse::<f64>().ok();
+        let num = |s: &String| rust_number(s);
         match self.kind.as_str() {
             k if k.starts_with("raw:") => vec![],
             "email" | "url" => vec![(self.kind.clone(), None, self.message.clone())],
@@ -316,8 +345,8 @@ pub fn messages(max_len: usize) -> Vec<String> {
 pub fn field_specs(tier: Tier) -> Vec<FieldSpec> {
     let mut v: Vec<FieldSpec> = vec![];
     let val = |kind: &str, min: Option<&str>, max: Option<&str>, msg: Option<&str>| Validator { kind: kind.into(), min: min.map(|s| s.to_string()), max: max.map(|s| s.to_string()), message: msg.map(|s| s.to_string()) };
-    let len_bounds: Vec<Option<&str>> = vec![None, Some("0"), Some("1"), Some("10"), Some("18446744073709551615")];
-    let range_bounds: Vec<Option<&str>> = vec![None, Some("0"), Some("1"), Some("10"), Some("-1"), Some("-1.5"), Some("0.5"), Some("1e3"), Some("2.5e-3"), Some("18446744073709551615"), Some("-0.0")];
+    let len_bounds: Vec<Option<&str>> = vec![None, Some("0"), Some("1"), Some("10"), Some("18446744073709551615"), Some("1_024"), Some("0x10"), Some("10usize")];
+    let range_bounds: Vec<Option<&str>> = vec![None, Some("0"), Some("1"), Some("10"), Some("-1"), Some("-1.5"), Some("0.5"), Some("1e3"), Some("2.5e-3"), Some("18446744073709551615"), Some("-0.0"), Some("1_000"), Some("2_500_000"), Some("0x7f"), Some("0o17"), Some("0b1010"), Some("5u8"), Some("-40i32"), Some("0.5f64"), Some("1_0.2_5"), Some("0xFF_FFu32")];
     // (1) all bound pairs, no message / plain message
     for ty in ["String", "Vec<String>", "Option<String>"] {
         for mn in &len_bounds {
@@ -543,7 +572,7 @@ pub fn run(tier: Tier) -> CheckResult {
     res.coverage.set("distinct_nontrivial", distinct.len() as u64);
     res.coverage.set("exhaustive", exhaustive);
     res.coverage.set("samples", json!(specs.iter().step_by((specs.len() / 6).max(1)).take(6).map(|f| format!("{}pub f: {}", f.attr_lines(), f.ty)).collect::<Vec<_>>()));
-    res.coverage.set("rule", "validated fields: every pair of length bounds on String / Vec<String> / Option<String> and every pair of range bounds (integers, negatives, decimals, exponents, u64::MAX, -0.0) on i32 / f64 / Option<i32> / u64, with and without message; every subset of {length, email, url} in one attribute, in separate attributes, in reverse order, with per-validator messages; every message of <= 5 (quick) / 6 (thorough) letters over {a, space, 2/3/4-byte characters, escaped quote, escaped backslash, parentheses, comma, =} plus phrases containing validator keywords, on length, range and email; each validated field has an unvalidated twin. Oracle: the constraint list read from the field's parsed Zod chain (names, numerically compared bounds, JS-unescaped messages) equals the declared one; twins carry none; nothing sits on element schemas. distinct_nontrivial = distinct feature vectors (type, validators, #attributes, bound classes, message class).");
+    res.coverage.set("rule", "validated fields: every pair of length bounds on String / Vec<String> / Option<String> and every pair of range bounds (integers, negatives, decimals, exponents, u64::MAX, -0.0, digit separators, hexadecimal / octal / binary literals, type suffixes) on i32 / f64 / Option<i32> / u64, with and without message; every subset of {length, email, url} in one attribute, in separate attributes, in reverse order, with per-validator messages; every message of <= 5 (quick) / 6 (thorough) letters over {a, space, 2/3/4-byte characters, escaped quote, escaped backslash, parentheses, comma, =} plus phrases containing validator keywords, on length, range and email; each validated field has an unvalidated twin. Oracle: the constraint list read from the field's parsed Zod chain (names, numerically compared bounds, JS-unescaped messages) equals the declared one; twins carry none; nothing sits on element schemas. distinct_nontrivial = distinct feature vectors (type, validators, #attributes, bound classes, message class).");
     res.assumptions = vec!["only type-correct validator/type combinations are generated (length on strings and vectors, range on numbers, email/url on strings)".into()];
     res
 }
